@@ -75,7 +75,7 @@ var scratchSeq int64
 // scratch returns a fresh directory below this shard's scratch root.
 func scratch(prefix string) string {
 	n := atomic.AddInt64(&scratchSeq, 1)
-	d := filepath.Join(ev.ScratchDir(), fmt.Sprintf("%s-%d", prefix, n))
+	d := filepath.Join(ev.ScratchDir(), fmt.Sprintf("%s-%d-%d", prefix, os.Getpid(), n)) // the pid keeps fuzz worker processes apart
 	if err := os.MkdirAll(d, 0o755); err != nil {
 		panic(err)
 	}
